@@ -13,6 +13,7 @@ from typing import Any, Dict, List, Optional, Tuple
 
 from harness.extract import isolation_reset as x_ir
 from harness.extract import isolation_sinkflags as x_sf
+from harness.extract import own_generator_state as x_own
 from harness.extract import sharedstate as x_ss
 from harness.lib import scen
 from harness.lib.core import VERIF, Ctx, Rng, lean_lock, run_driver, shrink_ops
@@ -21,7 +22,19 @@ from harness.rigs import isolation as iso
 from harness.rigs import isolation_sched as isd
 
 MANIFEST = {
-    "text": "ROUND 7: F-C04-r7-1 REPAIRED (fix4-C04: a SysLog / PacketCapture writes to its file logger only when it HAS one). The process-wide "
+    "text": "F-11 REPAIRED (fix4-RNG: decorator `own_generator_state` - every environment runs __init__ / reset / step on its OWN saved state of "
+            "random / numpy.random): NO open finding is left. The skeleton's operations follow the code (ownIn / ownOut around the bodies; the "
+            "`is not None` test of the wrapper is decided by construction: C04_own_in_code_eq / _new, C04_has_own_after) and the statements that "
+            "were partial are FULL: C04_skeleton_isolated proves C04_FullSkeletonIsolated (ANY schedule of construct / reset(seed) / the code's "
+            "own step of any number of instances, drawing scripted agents included), C04_skeleton_isolated_with_unseeded_resets, "
+            "C04_foreign_generator_use_harmless (arbitrary foreign draws in between), C04_gen_rng_safe proves C04_FullGenRngSafe (every drawing "
+            "operation has seeded or installed the own state of both generators first), C04_skeleton_history_irrelevant (histories of the code's "
+            "own steps and unseeded resets). F-11 itself is kept as lemmas about the PRE-repair programs (C04_shared_rng_counterexample, "
+            "C04_shared_rng_skeleton_isolated_partial, stepProgShared_not_ok). Gen: C04_gen_own_generator_state (wrapper shape by statement "
+            "roles, the six decorated methods and no other, no nested owned call, no drawing function reachable from any undecorated method of "
+            "the environment classes). Rig: unseeded-reset references hand the environment's own state over, schedules contain foreign use of "
+            "the generators, a difference the generator shield removes is a VIOLATION (channel F-11-regression). "
+            "ROUND 7: F-C04-r7-1 REPAIRED (fix4-C04: a SysLog / PacketCapture writes to its file logger only when it HAS one). The process-wide "
             "output settings SIM_OUTPUT are classified sink-only (read by log calls only, modelled as `Cmd.log` without effect); that is sound only "
             "if a log call cannot raise on account of a flag another environment wrote: C04_sink_flag_counterexample refutes isolation for log "
             "calls that dereference a logger under the process-wide flag alone, C04_gen_sink_flag_uses_guarded (Gen/IsolationSinkFlags: every "
@@ -31,12 +44,10 @@ MANIFEST = {
             "temporary session directory; a difference that disappears when SIM_OUTPUT is shielded is a VIOLATION (channel sim-output-settings). "
             "ROUND 3 (see design_notes/C04.md): F-10 REPAIRED (fix3-C04: NMNE settings are state of each game's own network) — the inventory "
             "obligation is now FULL (C04_gen_globals_safe: no inventory entry is `shared`; C04_gen_no_readable_global; C04_gen_nmne_per_game keeps "
-            "the two class attributes unwritten), and C04_skeleton_isolated_partial excludes exactly F-11: every schedule of construct / "
-            "reset(seed) / the code's own step of any number of instances leaves each trajectory equal to the solo one provided the instances that "
-            "are stepped draw nothing from the process-global generators. THE SEED ARGUMENT is modelled as Optional[int]: `set_random_seed` and the "
+            "the two class attributes unwritten). THE SEED ARGUMENT is modelled as Optional[int]: `set_random_seed` and the "
             "guard of `reset` are regenerated from source and proved equal to the model FOR EVERY ARGUMENT (C04_gen_seed_handling; a truthiness test "
             "fails at 0, C04_truthy_seed_counterexample), and the episode-freshness theorem is stated for the CALL reset(seed=s) for every natural s "
-            "(C04_reset_any_seed_episode_fresh); reset() without a seed is fresh modulo the generator state (C04_unseeded_reset_fresh_modulo_rng). "
+            "(C04_reset_any_seed_episode_fresh); reset() without a seed is fresh modulo the ENVIRONMENT'S OWN generator state (C04_unseeded_reset_fresh_modulo_rng). "
             "Every differential (dirty history, schedule freshness, interleaving) resets with 0, 1, the configured seed, 2^32-1, a random seed and "
             "no argument, and compares the state of the generators after every operation. "
             "Earlier rounds: every episode of an episode-scheduled environment is compared with an environment built "
@@ -54,16 +65,17 @@ MANIFEST = {
             "(C04_reset_is_fresh, C04_history_irrelevant). Tie: the SHARED-STATE INVENTORY (every ClassVar / class-level mutable attribute / "
             "module-level mutable object, every run-time write site incl. setattr, every use of the global RNGs, every `global` statement, pydantic "
             "mutable defaults) is regenerated from source into Gen/SharedState.lean and checked against a committed role table "
-            "(C04_gen_functions_known, C04_gen_classification, C04_gen_skeleton_matches, C04_gen_rng_safe_partial). PARTIAL: the code violates the "
-            "discipline in `step` (F-11 global RNG): the full statements are kept as C04_FullSkeletonIsolated / C04_FullGenRngSafe with proved "
-            "counterexamples; that the real step/reset behave like their skeleton is validated by the differential rig only.",
+            "(C04_gen_functions_known, C04_gen_classification, C04_gen_skeleton_matches, C04_gen_rng_safe). That the real step/reset behave like "
+            "their skeleton (an operation abstracted to its global access pattern) is validated by the differential rig only.",
     "note": "C04-specific: the model abstracts an operation to its global access pattern; the static call graph is by name (self type followed "
             "through constructors, registered lambdas deferred, unknown receivers resolved within the caller's import closure) — callbacks run "
             "by third-party code (pydantic validators, logging formatters), getattr and dunder protocol methods are seen only by the monitor. "
             "The CONTENT of file/terminal output (which instance's messages end up in which file: all instances of a process share one session "
             "directory and logger names) is outside the claim; that producing it cannot change or abort an operation is inside (round 7). "
-            "known_findings.json still lists F-10 as open (not editable "
-            "from this check); findings/C04.json carries the `fixed` entry and the rig reports a reappearance under another channel name.",
+            "NOT covered by the F-11 repair (stated): PrimaiteGame.step driven without an environment, torch's process-wide generator (seeded by "
+            "every seeding operation, drawn by nothing in the package), a user's random.seed() after construction no longer reaches the environment. "
+            "known_findings.json still lists F-10 / F-11 as open until the integrator merges (not editable "
+            "from this check); findings/C04.json carries the `fixed` entries and the rig reports a reappearance under another channel name.",
     "technique": "Lean 4 non-interference proof over a mini imperative language; regenerated shared-state inventory, seed handling and static "
                  "call graph; differential env rig (dirty history over a seed family, interleaved instances incl. a third instance and close, with "
                  "channel attribution, object-identity disjointness, scheduler copies, episode-schedule freshness against directly constructed "
@@ -707,7 +719,14 @@ def run(ctx: Ctx):
         ctx.extract("SharedState", x_ss.emit)
         ctx.extract("IsolationReset", x_ir.emit)
         ctx.extract("IsolationSinkFlags", x_sf.emit)
+        ctx.extract("OwnGeneratorState", x_own.emit)
         ctx.prove(MODULES, exes=[EXE], leanchecker=ctx.thorough)
+    try:
+        own_key = x_own.wrapper_shape()["stateKey"]
+    except Exception as e:
+        own_key = f"<{type(e).__name__}>"
+    ctx.oblige("rig:own-state-key the rig hands generator states over under the key the decorator uses", "correspondence",
+               own_key == iso.OWN_STATE_KEY, f"decorator: {own_key!r}, rig: {iso.OWN_STATE_KEY!r}")
     ctx.cov["rule"] = ("(a) one case = scenario x action map x dirty history (1-3 episodes of generated actions) x later action sequence; every compared "
                        "step (observation, reward, flags, every agent's action/request/response, whole describe_state) is one evaluation. "
                        "(b) one case = scenario pair x random schedule of construct/reset/step/close of B around A's operations; every A-step is "
